@@ -6,7 +6,7 @@ Cd "Extract".
 Extraction "cbufmodel.ml" dlib_anchor
   Cbuf.create Cbuf.is_valid Cbuf.abs Cbuf.used Cbuf.free Cbuf.is_empty Cbuf.flush Cbuf.opt_set_overwrite
   Cbuf.write Cbuf.write_from_fd Cbuf.drop Cbuf.peek Cbuf.read Cbuf.read_to_fd Cbuf.peek_line Cbuf.read_line
-  Cbuf.Z_of_mode
+  Cbuf.Z_of_mode Cbuf.step Cbuf.run Cbuf.fd_bytes
   Telnet.telnet_init Telnet.preprocess Telnet.dev_create Telnet.dev_preprocess Telnet.handle_read
   Telnet.handle_write Telnet.disconnect Telnet.connected Telnet.regex_subject Telnet.regex_consume
   Fifo.fifo_write Fifo.fifo_dropped Fifo.fifo_peek Fifo.fifo_drop Fifo.fifo_line_count Fifo.fifo_line_text
